@@ -50,6 +50,7 @@ package prometheus
 //@   ensures[C17,exact] forall k ref :: c.rep[k] + ite(has(c.activeClients, k), clock() - c.activeClients[k].startTime, 0) \
 //@        == atlock(c.rep[k]) + ite(atlock(has(c.activeClients, k)), clock() - atlock(c.activeClients[k].startTime), 0)
 //@   trace[C17,no-report-on-start] never prometheus.Counter.Add
+//@   trace[C17,C20,location-of-the-client-of-this-tunnel] each ipinfo.GetIPInfoFromIP satisfies $arg0 == c.ip2info
 
 //@ func (*tunnelTimeMetrics).stopConnection
 //@   props C17 C18 C19
@@ -171,6 +172,8 @@ package prometheus
 //@   trace[C15,target-side-bytes] each prometheus.(*proxyCollector).addTargetClient satisfies $arg1 == data.TargetProxy && $arg2 == data.ProxyClient && $arg3 == cm.accessKey
 //@   trace[C15,closed-with-status] each prometheus.(*tcpServiceMetrics).closeConnection satisfies $arg1 == status && $arg3 == cm.accessKey
 //@   trace[C17,unauthenticated-never-stops] never prometheus.(*tunnelTimeMetrics).stopConnection when cm.accessKey == ""
+//@   trace[C17,stopped-under-the-address-and-key-of-this-connection] each prometheus.toIPKey satisfies $arg0 == cm.clientAddr && $arg1 == cm.accessKey
+//@   trace[C17,stops-the-tunnel-of-that-key] each prometheus.(*tunnelTimeMetrics).stopConnection satisfies $arg0 == cm.tunnelTimeMetrics
 //@   trace[C17,stop-at-most-once] atmost 1 prometheus.(*tunnelTimeMetrics).stopConnection
 //@   trace[C17,no-start-at-close] never prometheus.(*tunnelTimeMetrics).startConnection
 //@   trace[C15,closed-once] exactly 1 prometheus.(*tcpServiceMetrics).closeConnection
@@ -250,11 +253,20 @@ package prometheus
 //@   params m clientConn
 //@   requires validSM(m) && clientConn != nil
 //@   ensures result != nil
+//@   trace[C15,C17,C20,location-of-the-peer-of-this-connection] each prometheus.(*serviceMetrics).getIPInfoFromAddr satisfies $arg0 == m && $arg1 == evres("net.Conn.RemoteAddr", 0)
+//@   trace[C15,C17,peer-address-asked-of-this-connection] each net.Conn.RemoteAddr satisfies $recv == clientConn
+//@   trace[C15,C17,C20,connection-metrics-for-this-connection-and-its-location] each prometheus.newTCPConnMetrics satisfies $arg0 == m.tcpServiceMetrics && $arg1 == m.tunnelTimeMetrics && $arg2 == clientConn && as(result, "*prometheus.tcpConnMetrics") == $res0 \
+//@       && $arg3.CountryCode == evres("prometheus.(*serviceMetrics).getIPInfoFromAddr", 0).CountryCode && $arg3.ASN.Number == evres("prometheus.(*serviceMetrics).getIPInfoFromAddr", 0).ASN.Number
+//@   trace[C15,one-connection-record] exactly 1 prometheus.newTCPConnMetrics
 //@ func (*serviceMetrics).AddUDPNatEntry
 //@   props C16 C18 C20
 //@   params m clientAddr accessKey
 //@   requires validSM(m) && clientAddr != nil
 //@   ensures result != nil
+//@   trace[C16,C17,C20,location-of-this-client] each prometheus.(*serviceMetrics).getIPInfoFromAddr satisfies $arg0 == m && $arg1 == clientAddr
+//@   trace[C16,C17,C20,association-metrics-for-this-client-key-and-location] each prometheus.newUDPConnMetrics satisfies $arg0 == m.udpServiceMetrics && $arg1 == m.tunnelTimeMetrics && $arg2 == accessKey && $arg3 == clientAddr && as(result, "*prometheus.udpConnMetrics") == $res0 \
+//@       && $arg4.CountryCode == evres("prometheus.(*serviceMetrics).getIPInfoFromAddr", 0).CountryCode && $arg4.ASN.Number == evres("prometheus.(*serviceMetrics).getIPInfoFromAddr", 0).ASN.Number
+//@   trace[C16,one-association-record] exactly 1 prometheus.newUDPConnMetrics
 //@ func (*serviceMetrics).AddCipherSearch
 //@   props C18
 //@   params m proto accessKeyFound timeToCipher
